@@ -1,6 +1,7 @@
 ----------------------------- MODULE IterLoopMC -----------------------------
 EXTENDS IterLoop
-AllLConfigs == {c \in [alg : Algs, cap : 0..4, tol : BOOLEAN, cb : BOOLEAN, cbstops : BOOLEAN, signed : BOOLEAN] : FamilyOK(c)}
-LongLConfigs == {c \in [alg : Algs, cap : {7}, tol : {TRUE}, cb : BOOLEAN, cbstops : BOOLEAN, signed : BOOLEAN] : FamilyOK(c)}
-NoLConfigs == {[alg |-> "tucker", cap |-> 0, tol |-> FALSE, cb |-> FALSE, cbstops |-> FALSE, signed |-> FALSE]}
+AllLConfigs == {c \in [alg : Algs, cap : 0..4, tol : BOOLEAN, cb : BOOLEAN, cbstops : BOOLEAN, signed : BOOLEAN, maxstag : 0..1] : FamilyOK(c)}
+LongLConfigs == {c \in [alg : Algs, cap : {7}, tol : BOOLEAN, cb : BOOLEAN, cbstops : BOOLEAN, signed : BOOLEAN, maxstag : 0..2] :
+                    FamilyOK(c) /\ (c.tol \/ c.alg = Rand)}
+NoLConfigs == {[alg |-> "tucker", cap |-> 0, tol |-> FALSE, cb |-> FALSE, cbstops |-> FALSE, signed |-> FALSE, maxstag |-> 0]}
 =============================================================================
